@@ -85,6 +85,9 @@ func c05spec(c c05case) Spec {
 		} else {
 			addN(PNode{Op: "reshard", Shards: c.NShard})
 		}
+	case "reshard-same":
+		// Reshard to the shard count the slice already has: the constructor returns its argument
+		addN(PNode{Op: "reshard", Shards: c.Producers})
 	case "repartition2":
 		// one slice feeds two Repartitions with different functions and the same shard count in
 		// one invocation (joined by a Cogroup): each must be partitioned by its own function
@@ -239,7 +242,7 @@ func runC05case(t *vf.T, pool *sessionPool, c c05case) {
 		}
 	}
 	class := c.Op
-	if class == "reshard" || class == "reshuffle" || class == "reduce" || class == "cogroup" {
+	if class == "reshard" || class == "reshard-same" || class == "reshuffle" || class == "reduce" || class == "cogroup" {
 		class = "hash" // these document the same default hash partitioning of the prefix
 	}
 	who := fmt.Sprintf("%s/producers=%d/rot=%d/%s", c.Op, c.Producers, c.Rot, c.Conf)
@@ -341,6 +344,12 @@ func runC05(r *vf.Runner) {
 				}
 				run(c05case{Conf: conf, Kinds: []string{k}, Op: "repartition2", Producers: 2, NShard: n, KeySet: "random", NKeys: 300, Dup: 1, Seed: uint64(10 + n)})
 			}
+		}
+	}
+	// Reshard to the shard count a slice already has
+	for _, k := range []string{"int", "string", "float64"} {
+		for _, n := range []int{2, 3} {
+			run(c05case{Conf: localP4, Kinds: []string{k}, Op: "reshard-same", Producers: n, NShard: n, KeySet: "random", NKeys: 100, Dup: 2, Seed: uint64(n)})
 		}
 	}
 	// multi-column prefixes
